@@ -386,6 +386,36 @@ func evalC14(k c14Case) []pbt.Violation {
 				return []pbt.Violation{{Signature: "output-depends-on-subset:" + l, Detail: fmt.Sprintf("tree of %s when requested with %v differs from its tree alone: %s", l, k.Subset, d)}}
 			}
 		}
+		// descriptors: every target alone fits a limit on open files that the targets together
+		// exceed only if a target's files stay open while the next target is written
+		if len(k.Subset) >= 3 {
+			most, sum, big := 0, 0, ""
+			for _, l := range k.Subset {
+				sum += len(solo[l])
+				if len(solo[l]) > most {
+					most, big = len(solo[l]), l
+				}
+			}
+			limit := most + 10
+			if sum+4 > limit {
+				lim := func(langs []string) cli.Result {
+					d := cli.Scratch("fdlimit")
+					defer os.RemoveAll(d)
+					in := filepath.Join(d, "in.dsl")
+					_ = os.WriteFile(in, []byte(k.Text), 0o644)
+					args := []string{cli.Bin(), "compile", "-f", in}
+					for _, l := range langs {
+						args = append(args, cli.Flags[l], filepath.Join(d, "out_"+l))
+					}
+					return cli.Run(d, 60*time.Second, nil, nil, "sh", append([]string{"-c", fmt.Sprintf(`ulimit -n %d && exec "$0" "$@"`, limit)}, args...)...)
+				}
+				if alone := lim([]string{big}); alone.Exit == 0 {
+					if all := lim(k.Subset); all.Exit != 0 {
+						return []pbt.Violation{{External: true, Signature: "targets-compete-for-descriptors", Detail: fmt.Sprintf("with at most %d open files, %s alone (%d files) is written, but %v together fail: %s", limit, big, most, k.Subset, clip(string(all.Stdout)+string(all.Stderr), 300))}}
+					}
+				}
+			}
+		}
 		// nothing but the requested directories
 		ents, _ := os.ReadDir(dir)
 		for _, e := range ents {
@@ -461,10 +491,14 @@ func TestC14(t *testing.T) {
 		if rapid.IntRange(0, 3).Draw(rt, "second_match_same_key") == 0 && dsl.AddSecondMatchSameKey(rt, p) {
 			c.Class("two-match-fields-on-one-key")
 		}
+		// an inline object named like a top-level packet declared elsewhere
+		if rapid.IntRange(0, 3).Draw(rt, "inline_shadows_packet") == 0 && dsl.InlineShadowsPacket(rt, p) {
+			c.Class("inline-object-named-like-a-packet")
+		}
 		hist := rapid.SliceOfN(rapid.SampledFrom(inproc.Langs), 2, 12).Draw(rt, "history")
 		k := c14Case{Text: dsl.PlainText(p), History: hist}
 		n++
-		if rapid.IntRange(0, 9).Draw(rt, "with_cli") == 0 || pbt.Thorough() {
+		if rapid.IntRange(0, 5).Draw(rt, "with_cli") == 0 || pbt.Thorough() {
 			k.Subset = drawSubset(rt)
 			if rapid.IntRange(0, 3).Draw(rt, "shared_dir") == 0 {
 				k.SharedDir = true
